@@ -537,6 +537,7 @@ def case_subview(case):
 
     bounds, elt, dynmask = case[:3]
     chain = len(case) > 3 and case[3]  # pointer of a subview of a subview: both offsets count
+    stat = case[4] if len(case) > 4 else [0] * len(bounds)  # static offsets (in outer tiles) of the dimensions that are not run-time values
     ety = {8: i8, 32: i32, 64: i64}[elt]
     shape = [int(np.prod(b)) for b in bounds]
 
@@ -546,7 +547,8 @@ def case_subview(case):
         mt = MemRefType(ety, shape, layout=attr)
         src = test.TestOp(result_types=[mt])
         offs = [test.TestOp(result_types=[IndexType()]) if dynmask[d] else None for d in range(len(bounds))]
-        static_offs = [memref.DYNAMIC_INDEX if dynmask[d] else 0 for d in range(len(bounds))]
+        inner_of = lambda d: int(np.prod(bounds[d][1:])) if bounds[d][1:] else 1
+        static_offs = [memref.DYNAMIC_INDEX if dynmask[d] else stat[d] * inner_of(d) for d in range(len(bounds))]
         sizes = [1] * len(bounds)
         res_t = MemRefType(ety, sizes, layout=builtin.StridedLayoutAttr([None] * len(bounds), None))
         pre = []
@@ -616,7 +618,7 @@ def case_subview(case):
                     x.append(t * inner)
                 offvals[d] = t * inner
             else:
-                x.append(z3.IntVal(0))
+                x.append(z3.IntVal(stat[d] * inner * (2 if chain else 1)))
         ev = execute(m, src, offs, use, base, [offvals.get(d) for d in range(len(bounds))],
                      offvals1=[offvals1.get(d) for d in range(len(bounds))])
         eng().oblige("subview_ptr:lowered", z3.BoolVal(len(ev) == 1))
@@ -637,7 +639,7 @@ def case_subview(case):
                 offvals1[d] = z3.BitVecVal(u * inner, 32)
                 x.append((mval(mm, f"t{d}") + u) * inner)
             else:
-                x.append(0)
+                x.append(stat[d] * inner * (2 if chain else 1))
         base = mval(mm, "base")
         ev = execute(m, src, offs, use, z3.BitVecVal(base, 32), [offvals.get(d) for d in range(len(bounds))], False,
                      offvals1=[offvals1.get(d) for d in range(len(bounds))])
@@ -645,7 +647,7 @@ def case_subview(case):
         exp = (base + Lambda_py(bounds, ss, x) * (elt // 8)) % 2 ** 32
         return got != exp, f"bounds={bounds} steps={ss} offsets={x} ptr={got} expected={exp}"
 
-    return run_case(fn, replay, witness=True, sample=dict(bounds=bounds, elt=elt, dynamic=dynmask, chain=bool(chain)), key=str(case))
+    return run_case(fn, replay, witness=True, sample=dict(bounds=bounds, elt=elt, dynamic=dynmask, chain=bool(chain), static_tiles=list(stat)), key=str(case))
 
 
 # ---------------------------------------------------------------- driver
@@ -681,7 +683,7 @@ def run(chk):
         "from_strides/print-parse must preserve it)",
         "steps positive; tile bounds from the enumerated set; indices inside the shape",
         "dynamic sizes are multiples of the inner tile product, >= 1 tile (documented TSL contract)",
-        "subview offsets are multiples of the inner tile product and static offsets are 0 (tile-aligned subviews)",
+        "subview offsets (run-time values and constants) are multiples of the inner tile product (tile-aligned subviews)",
         "xdsl 0.70.0 + import shim",
     ]
     bv = (1, 2, 3) if quick else (1, 2, 3, 4)
@@ -784,11 +786,19 @@ def run(chk):
                     cases.append((b, elt, list(mask)))
                     if elt == 32:
                         cases.append((b, elt, list(mask), True))
+                # offsets that are constants: zero everywhere, and one outer tile in the dimensions that are not run-time
+                # values (what unrolling / folding a tile loop leaves behind)
+                if elt == 32 or not any(mask):
+                    st1 = [0 if mk_ else min(1, bb[0] - 1) for mk_, bb in zip(mask, b)]
+                    if not any(mask):
+                        cases.append((b, elt, list(mask), False, [0] * len(b)))
+                    if any(st1):
+                        cases.append((b, elt, list(mask), False, st1))
     if only in (None, "subview"):
         chk.add_results("subview_pointer", pmap(case_subview, cases, chunks=2))
     chk.outside = [
         "rank > 4, tile depth > 3, tile bounds outside the enumerated set",
-        "non-tile-aligned or static non-zero subview offsets in convert-memref-to-arith",
+        "subview offsets that are not multiples of the inner tile product in convert-memref-to-arith",
         "print/parse and numpy enumeration views for all layouts (representatives / concrete layouts only)",
         "get_step_ops on a strided memref with in_bytes=False (no caller; the branch scales by the element size regardless)",
     ]
